@@ -113,6 +113,7 @@ def run(prop, tier, seed, extra_assumptions=()):
     cov["checker_cmd"] = "; ".join(c.get("checker_cmd") or "" for c in covs)
     cov["functions_under_contract"] = sorted(set(sum([c.get("functions_under_contract", []) for c in covs], [])))
     cov["functions_bounded_only"] = plan.get("bounded_fns", [])
+    cov["backend"] = "Verus 0.2026.09.13 / Z3 for the obligations; the native harness (compiled real code) for counterexamples and the bounded part"
     if vac:
         cov["vacuity_probes"] = {"expected_to_fail": sum(p["expected"] for p in vac), "failed_as_expected": sum(p["failed_as_expected"] for p in vac),
                                  "per_unit": {p["unit"]: [p["expected"], p["failed_as_expected"]] for p in vac}}
